@@ -7,7 +7,10 @@
 (* line when the futures of the premature updates of a newly announced       *)
 (* channel have completed, "Garbage" lines for bit-flipped wire messages     *)
 (* (inputs outside the universe), an "End" line after the last broadcast     *)
-(* window.  Recv/Garbage/End are deterministic in the model, so the          *)
+(* window, "Connect" / "Disconnect" lines for the block notifications handed  *)
+(* to the real graph.Builder (builder source only; recorded after the        *)
+(* builder's handler has processed them).                                    *)
+(* Recv/Garbage/End/Connect/Disconnect are deterministic in the model, so the *)
 (* comparison is a set of INVARIANTS over Last; the replay order is not      *)
 (* observable, so Replay carries its comparison in the guard (the model      *)
 (* must have SOME order that gives the recorded results and policies).       *)
@@ -25,6 +28,7 @@ Reset == /\ Is("Reset")
          /\ stash' = [c \in Chans |-> <<>>] /\ zombie' = {} /\ zkeys' = [c \in Chans |-> {}]
          /\ closed' = {} /\ rejects' = {}
          /\ relayed' = {} /\ nmsg' = 0 /\ last' = [kind |-> "Init", res |-> "-"]
+         /\ tip' = Tip0 /\ verts' = {} /\ reorg' = FALSE
 
 B(x) == IF x THEN 1 ELSE 0
 PolIdx(c, d) == 2 * (c - 1) + d + 1
@@ -74,19 +78,22 @@ ReplayAll(c, rs, g) ==
      /\ relayed' = relayed \cup UNION {RunOrder(c, o).app : o \in os}
   /\ stash' = [stash EXCEPT ![c] = <<>>]
   /\ last' = [kind |-> "ReplayAll", res |-> "-"]
-  /\ UNCHANGED <<chans, nodes, zombie, zkeys, closed, rejects, nmsg>>
+  /\ UNCHANGED <<chans, nodes, zombie, zkeys, closed, rejects, nmsg, tip, verts, reorg>>
 
 (* a message that is not in the universe and cannot be authentic (a bit of  *)
 (* a signed message was flipped on the wire): nothing may change            *)
 Garbage == /\ last' = [kind |-> "Garbage", res |-> "-"]
-           /\ UNCHANGED <<chans, pol, nodes, stash, zombie, zkeys, closed, rejects, relayed, nmsg>>
+           /\ UNCHANGED <<chans, pol, nodes, stash, zombie, zkeys, closed, rejects, relayed, nmsg, tip, verts, reorg>>
 
 TNext == \/ Is("Recv") /\ Recv(Trace[l].m)
          \/ Is("Replay") /\ ReplayAll(Trace[l].c, Trace[l].rs, Trace[l].g)
          \/ Is("Zombify") /\ Zombify(Trace[l].m.c, Trace[l].m.signer)
          \/ Is("Garbage") /\ Garbage
+         \/ Is("Connect") /\ Trace[l].m.t = "BC" /\ Connect(SpentOf(Trace[l].m.c))
+         \/ Is("Disconnect") /\ Trace[l].m.t = "BD" /\ Disconnect
          \/ Is("End") /\ last' = [kind |-> "End", res |-> "-"]
-                      /\ UNCHANGED <<chans, pol, nodes, stash, zombie, zkeys, closed, rejects, relayed, nmsg>>
+                      /\ UNCHANGED <<chans, pol, nodes, stash, zombie, zkeys, closed, rejects, relayed, nmsg,
+                                     tip, verts, reorg>>
          \/ Reset
          \/ (l = Len(Trace) + 1 /\ UNCHANGED <<vars, l>>)
 TSpec == TInit /\ [][TNext]_<<vars, l>>
@@ -97,6 +104,7 @@ G    == Last.g
 \* the message is one the specification speaks about
 MsgInUniverse == /\ (Live /\ Last.a = "Recv") => Last.m \in Universe
                  /\ (Live /\ Last.a = "Zombify") => Last.m \in ZOUniverse
+                 /\ (Live /\ Last.a \in {"Connect", "Disconnect"}) => Last.m \in ChainUniverse
 \* THE comparison: channels, their end points, policies (timestamp, content), announced nodes - and nothing else in the graph
 ConformGraph == Live =>
   /\ \A c \in Chans : G.ch[c] = B(c \in chans)
@@ -105,6 +113,10 @@ ConformGraph == Live =>
   /\ \A n \in Nodes : G.nd[n] = nodes[n]
   /\ G.nch = Cardinality(chans)
   /\ G.nnd = Cardinality({n \in Nodes : nodes[n] > 0})
+\* the builder's height and the node vertices of the real store (builder source; the mock has neither)
+ConformChain == (Live /\ Last.src = "builder") =>
+  /\ G.tip = tip
+  /\ \A n \in Nodes : G.vx[n] = B(n \in verts)
 \* nothing is handed to Broadcast that the model did not relay (= apply)
 ConformRelay == Live => \A i \in 1..Len(Last.rel) : Last.rel[i] \in relayed \cup ReplayingMsgs
 \* class of the result on the caller's future
